@@ -1,1 +1,3 @@
 LINK := full
+KITS := chainkit p2pkit
+INCLUDED_SRCS := net_processing.cpp
